@@ -380,7 +380,39 @@ func vfNear(a, b float64) bool {
 	return d <= 1e-9*(1+m)
 }
 
+// bounds that are degenerate or have Min above Max on one axis: the generic functions treat a bound as
+// its ring (b.ToRing()) / its polygon; both routes must agree with each other
+func vfBoundSpecials() {
+	for _, b := range []orb.Bound{
+		{Min: orb.Point{1, 2}, Max: orb.Point{4, 6}},
+		{Min: orb.Point{1, 2}, Max: orb.Point{1, 6}},
+		{Min: orb.Point{1, 2}, Max: orb.Point{4, 2}},
+		{Min: orb.Point{1, 2}, Max: orb.Point{1, 2}},
+		{Min: orb.Point{4, 2}, Max: orb.Point{1, 6}},
+		{Min: orb.Point{1, 6}, Max: orb.Point{4, 2}},
+		{Min: orb.Point{4, 6}, Max: orb.Point{1, 2}},
+		{},
+	} {
+		c1, a1 := planar.CentroidArea(b)
+		c2, a2 := planar.CentroidArea(b.ToRing())
+		vfAssert("bound-centroidarea-as-its-ring", c1 == c2 && a1 == a2)
+		vfAssert("bound-area-as-its-ring", planar.Area(b) == planar.Area(b.ToRing()))
+		vfAssert("bound-length-as-its-ring", planar.Length(b) == planar.Length(b.ToRing()))
+		vfAssert("bound-geo-area-as-its-ring", geo.Area(b) == geo.Area(b.ToRing()))
+		q := orb.Point{2.5, 3}
+		d1, _ := planar.DistanceFromWithIndex(b, q)
+		d2, _ := planar.DistanceFromWithIndex(b.ToRing(), q)
+		vfAssert("bound-distancefrom-as-its-ring", d1 == d2)
+		col := orb.Collection{b}
+		_, ac := planar.CentroidArea(col)
+		vfAssert("collection-of-a-bound-area", ac == a2)
+	}
+}
+
 func vfMeasures(g orb.Geometry) {
+	if _, isB := g.(orb.Bound); isB {
+		vfBoundSpecials()
+	}
 	if _, isC := g.(orb.Collection); !isC {
 		vfAssert("planar-area-agrees-with-kind", vfNear(planar.Area(g), vfRefArea(g)))
 	}
